@@ -184,7 +184,7 @@ def check_c02(case, stats):
 
 
 CHECKS = {'check_c02': check_c02}
-_B = {'quick': 30, 'thorough': 400}
+_B = {'quick': 30, 'thorough': 1200}
 
 
 def shards(tier):
